@@ -34,18 +34,18 @@ models.BUILTIN_MODELS[hash] = _m_hash
 CLASSES = ("IBAN", "BIC", "BBAN")
 
 
-def make(I, cls_name, chars):
+def make(I, cls_name, chars, cc="DE"):
     import schwifty
     cls = getattr(schwifty, cls_name)
     if cls_name == "BBAN":
-        return I.call(cls, ["DE", SStr(chars)], {})
+        return I.call(cls, [cc, SStr(chars)], {})
     return I.call(cls, [SStr(chars)], {"allow_invalid": True})
 
 
-def make_native(cls_name, text):
+def make_native(cls_name, text, cc="DE"):
     import schwifty
     cls = getattr(schwifty, cls_name)
-    return cls("DE", text) if cls_name == "BBAN" else cls(text, allow_invalid=True)
+    return cls(cc, text) if cls_name == "BBAN" else cls(text, allow_invalid=True)
 
 
 class CompareTask(T.Task):
@@ -69,7 +69,8 @@ class CompareTask(T.Task):
     def code(self, I, inp):
         import ast
         x = make(I, self.ca, inp["a"].chars)
-        y = make(I, self.cb, inp["b"].chars) if self.cb != "str" else inp["b"]
+        # the second BBAN belongs to ANOTHER country: the value of a BBAN object is its text alone
+        y = make(I, self.cb, inp["b"].chars, cc="AT") if self.cb != "str" else inp["b"]
         eq = I.call(I.getattr(x, "__eq__"), [y], {})
         lt = I.call(I.getattr(x, "__lt__"), [y], {})
         hx = I.call(I.getattr(x, "__hash__"), [], {})
@@ -93,7 +94,7 @@ class CompareTask(T.Task):
 
     def native_agree(self, inp):
         x = make_native(self.ca, inp["a"])
-        y = make_native(self.cb, inp["b"]) if self.cb != "str" else inp["b"]
+        y = make_native(self.cb, inp["b"], cc="AT") if self.cb != "str" else inp["b"]
         sa, sb = inp["a"], inp["b"]
         ok = (x == y) == (sa == sb) and (x != y) == (sa != sb) and (x < y) == (sa < sb) and (x <= y) == (sa <= sb) \
             and (x > y) == (sa > sb) and (x >= y) == (sa >= sb) and hash(x) == hash(sa) and (y == x) == (sa == sb) \
@@ -271,8 +272,7 @@ def main(seed, tier):
     from props import common
     t0 = time.time()
     specs = []
-    for ca, cb in [("IBAN", "IBAN"), ("IBAN", "BIC"), ("BIC", "BBAN"), ("BBAN", "IBAN"), ("IBAN", "str"), ("BIC", "str"),
-                   ("BBAN", "str")]:
+    for ca, cb in [(a, b) for a in CLASSES for b in CLASSES + ("str",)]:
         for n, m in [(0, 0), (1, 1), (3, 3), (2, 3), (4, 2), (8, 8)]:
             specs.append(("props.c16", "CompareTask", (ca, cb, n, m)))
     lengths = {"IBAN": [0, 3, 4, 22], "BIC": [0, 5, 8, 11], "BBAN": [0, 2, 18]}
